@@ -332,7 +332,10 @@ def find_octopus_base(
             )
             next_lcas.extend(res)
         lcas = next_lcas[:]
-    return lcas
+    # the pairwise folding can leave the same commit twice, or a commit
+    # together with one of its descendants: keep the maximal ones (what git's
+    # reduce_heads does at this point)
+    return independent(repo, lcas)
 
 
 def can_fast_forward(repo: "BaseRepo", c1: ObjectID, c2: ObjectID) -> bool:
@@ -402,6 +405,9 @@ def independent(repo: "BaseRepo", commit_ids: Sequence[ObjectID]) -> list[Object
     """
     if not commit_ids:
         return []
+    # a commit listed twice is one commit (each copy would otherwise take
+    # the other for a descendant and both would be dropped)
+    commit_ids = list(dict.fromkeys(commit_ids))
     if len(commit_ids) == 1:
         return list(commit_ids)
 
